@@ -534,6 +534,22 @@ class ACCLoopDirective(ACCRegionDirective):
                 f"in the Schedule or the routine must contain an "
                 f"ACCRoutineDirective.")
 
+        # The directive must be followed by a loop and, if there is a
+        # collapse clause, by that many tightly-nested loops.
+        # pylint: disable=import-outside-toplevel
+        from psyclone.psyir.nodes.loop import Loop
+        cursor = self.dir_body.children[0] if self.dir_body.children else None
+        for depth in range(max(1, self._collapse or 1)):
+            if (not isinstance(cursor, Loop) or
+                    len(cursor.parent.children) != 1):
+                raise GenerationError(
+                    f"ACCLoopDirective must be followed by "
+                    f"{max(1, self._collapse or 1)} tightly-nested loop(s) "
+                    f"but the statement at depth {depth} is not a Loop that "
+                    f"is the only statement of the enclosing body.")
+            cursor = (cursor.loop_body.children[0]
+                      if cursor.loop_body.children else None)
+
         super().validate_global_constraints()
 
     def gen_code(self, parent):
